@@ -52,7 +52,7 @@ impl CompInfo {
 #[cfg(kani)]
 mod proofs {
     use super::*;
-    #[kani::proof] #[kani::unwind(20)]
+    #[kani::proof] #[kani::unwind(24)]
     fn stdint_names_map_to_the_right_primitive() {
         let ctx = BindgenContext { options: Options { size_t_is_usize: kani::any(), convert_floats: false, enable_cxx_namespaces: false } };
         // (C name, Rust primitive with the same width and signedness, always / only with size_t_is_usize)
@@ -70,6 +70,11 @@ mod proofs {
             i += 1;
         }
         assert!(type_from_named(&ctx, "my_t").is_none() && !ctx.is_stdint_type("my_t"));
+        // names whose width the C standard does NOT fix (least: at least N bits; fast: whatever is fastest - `long` for 16 and 32 on x86_64 glibc; max: widest)
+        // must keep their typedef: replacing them by name with an N-bit primitive changes the width of arguments, return values and globals
+        let open: [&'static str; 10] = ["int_fast16_t", "uint_fast16_t", "int_fast32_t", "uint_fast32_t", "int_fast8_t", "int_least16_t", "uint_least32_t", "int_fast64_t", "intmax_t", "uintmax_t"];
+        let mut i = 0;
+        while i < 10 { assert!(type_from_named(&ctx, open[i]).is_none(), "a <stdint.h> name of implementation-defined width is replaced by a fixed-width Rust primitive"); i += 1; }
     }
     /// (signed, size in bytes on x86_64-unknown-linux-gnu) of the Rust type named
     fn rust_ty(t: syn::Type) -> Option<(bool, usize)> {
